@@ -96,6 +96,9 @@ class TemperatureUnitType(UnitType):
     def _convert_Cel_K(self, value):
         return value+273.15
         
+    def _convert_Cel_Cel(self, value):
+        return value
+        
     def _convert_Cel_degF(self, value):
         return (value*9/5)+32
         
@@ -107,6 +110,9 @@ class TemperatureUnitType(UnitType):
     
     def _convert_degF_Cel(self, value):
         return (value-32)*5/9
+        
+    def _convert_degF_degF(self, value):
+        return value
         
     def _convert_degF_degR(self, value):
         return (value+459.67)*5/9
